@@ -41,6 +41,7 @@ func compressionOpts(names []string) []connect.HandlerOption {
 }
 
 func negOp(c *Ctx, op string) {
+	c.Begin(op)
 	a := kvArgs(strings.Fields(op))
 	reg := strings.Split(a["reg"], ",")
 	sent, accept := string(unhx(a["sent"])), string(unhx(a["accept"]))
@@ -275,6 +276,7 @@ func (b *bodyCapture) Do(req *http.Request) (*http.Response, error) {
 
 // cminOp: does a real client compress a request message of `size` bytes with minimum `min`?
 func cminOp(c *Ctx, op string) {
+	c.Begin(op)
 	a := kvArgs(strings.Fields(op))
 	size, min := atoi(a["size"]), atoi(a["min"])
 	if strings.HasPrefix(a["min"], "-") {
